@@ -75,6 +75,10 @@ func cmdDebug(t *testing.T, args []string) int {
 		}
 		if res.HarnessErr != "" || len(res.Violations) > 0 {
 			bad++
+			if os.Getenv("DSIM_SHOWPLAN") != "" {
+				pb, _ := json.Marshal(plan)
+				fmt.Println("PLAN", string(pb))
+			}
 			fmt.Printf("seed %d: harnessErr=%q outcome=%q steps=%d\n", plan.Seed, res.HarnessErr, res.Outcome, res.Steps)
 			for _, v := range res.Violations {
 				fmt.Printf("  VIOL props=%v oracle=%s sig=%s\n    %s\n", v.Props, v.Oracle, v.Sig, v.Detail)
